@@ -440,7 +440,7 @@ class Check(object):
         n_viol = 0
         seen_keys = set()
         for key, what, replay in self.violations:
-            if key in seen_keys:
+            if key in seen_keys or n_viol >= 5:
                 continue
             seen_keys.add(key)
             os.makedirs(rdir, exist_ok=True)
